@@ -1,7 +1,7 @@
 """C14 -- effect-trace obligations; see contracts/traces.py for the obligation definitions."""
 from contracts import traces, c03
 
-ALWAYS_STANDIN = False
+ALWAYS_STANDIN = True
 POLS = ['least-recently-stored', 'least-recently-used']
 
 
